@@ -27,6 +27,7 @@ package main
 
 import (
 	"fmt"
+	"math"
 	"strconv"
 	"strings"
 	"sync"
@@ -269,7 +270,7 @@ func seqInts(lo, n int) string {
 }
 
 func main() {
-	tr.Main("C10_ring: Join of every ordered pair of elements of one ring (every distance, equal, adjacent) and of two different rings, ring sizes 1..8 (quick) / 1..10 (thorough), with a snapshot before and after; Pop of every element; New for n = -2..9; nil receivers and arguments; Each stopped at every call; At/Peek at every offset -(len+1)..(len+1) and far beyond; random histories of Join/Pop/New/Of over several rings with a snapshot after every mutation.  A snapshot walks Next and Prev c+1 steps from every element ever handed out and records Len, Each, At and Peek at all offsets.  A case is non-trivial when it contains a Join or a Pop; distinct = distinct histories.",
+	tr.Main("C10_ring: Join of every ordered pair of elements of one ring (every distance, equal, adjacent) and of two different rings, ring sizes 1..8 (quick) / 1..10 (thorough), with a snapshot before and after; Pop of every element; New for n = -2..9; nil receivers and arguments; Each stopped at every call; At/Peek at every offset -(len+1)..(len+1) and far beyond, up to math.MaxInt64 and down to math.MinInt64; random histories of Join/Pop/New/Of over several rings with a snapshot after every mutation.  A snapshot walks Next and Prev c+1 steps from every element ever handed out and records Len, Each, At and Peek at all offsets.  A case is non-trivial when it contains a Join or a Pop; distinct = distinct histories.",
 		exec, func(g *tr.G) {
 			maxN := g.Scale(8, 10)
 			// nil receivers / arguments, empty rings
@@ -305,9 +306,11 @@ func main() {
 					for lim := 0; lim <= n+1; lim++ {
 						g.Emit(fmt.Sprintf("H %s;E%d,%d", of, i, lim), false, "each-stop")
 					}
-					for _, o := range []int{n, n + 1, 2 * n, 2*n + 1, 1000, 1 << 40, 1<<62 + 12345} {
+					for _, o := range []int{n, n + 1, 2 * n, 2*n + 1, 1000, 1 << 40, 1<<62 + 12345, math.MaxInt64} {
 						g.Emit(fmt.Sprintf("H %s;A%d,%d;K%d,%d;A%d,%d;K%d,%d", of, i, o, i, o, i, -o, i, -o), false, "at-far")
 					}
+					// the minimum int has no negation; At must still count it toward zero and stop after len steps
+					g.Emit(fmt.Sprintf("H %s;A%d,%d;K%d,%d;A%d,%d;K%d,%d", of, i, math.MinInt64, i, math.MinInt64, i, math.MinInt64+1, i, math.MinInt64+1), false, "at-minint")
 				}
 				// different rings, every pair
 				for m := 1; m <= maxN; m++ {
